@@ -199,7 +199,7 @@ int main(int argc, char **argv)
       for (int traj = 0; traj < 2; traj++) {
         std::vector<int> none(L, 0);
         Run ref = do_run(sc, traj, none, L, false, r);
-        if (!ref.ok) { fprintf(stderr, "HARNESS-ERROR: %s rejected: %s\n", sc.name, ref.err.c_str()); exit(2); }
+        if (!ref.ok) { fprintf(stderr, "HARNESS-ERROR: %s rejected: %s\n", sc.name, ref.err.c_str()); exit(3); }
         std::string base = std::string("{\"schedule\":\"") + sc.name + "\",\"trajectory\":" + std::to_string(traj);
 
         // ---------- closed forms on the unsegmented run (done once, by shard 0) ----------
